@@ -427,7 +427,7 @@ pub fn tamper_cases(quick: bool) -> Vec<MutCase> {
         (vec![14, 8, 1], 1, 1, 0),
     ]
     .into_iter()
-    .take(if quick { 5 } else { 8 })
+    .take(if quick { 8 } else { 8 })
     .map(|(lines, eol, fin, cfg)| TextCase {
         lines,
         eol,
@@ -477,7 +477,7 @@ pub fn check(ctx: &Ctx) {
     let quick = ctx.tier == Tier::Quick;
     let mut cases = Vec::new();
     // full line alphabet
-    for lines in seqs(&all, if quick { 3 } else { 5 }) {
+    for lines in seqs(&all, if quick { 4 } else { 5 }) {
         for eol in 0..3u8 {
             if eol == 2 && lines.len() < 3 {
                 continue;
@@ -493,7 +493,7 @@ pub fn check(ctx: &Ctx) {
         }
     }
     // deeper texts over the 4-shape sub-alphabet
-    for lines in seqs(&SHAPES4, if quick { 6 } else { 10 }) {
+    for lines in seqs(&SHAPES4, if quick { 8 } else { 10 }) {
         if lines.len() <= 3 {
             continue;
         }
@@ -526,7 +526,7 @@ pub fn check(ctx: &Ctx) {
     ctx.run_space(
         "texts",
         true,
-        "texts = sequences of lines from a 16-line alphabet (dash lines, armor boundary strings, trailing blanks, inner CR, UTF-8, lines ending in FF / NBSP) up to 3 (thorough 5) lines and from a 4-shape sub-alphabet up to 6 (10) lines x line ending {LF,CRLF,mixed} x final {none,newline,lone CR} x {sign v4, sign v6, new SHA-512, new_many 2 signers}: sign -> signed_text = RFC form -> armored -> independent reader sees the text -> from_string / from_armor / Any::from_string -> same text, verifies; non-trivial = text contains '-', blank, TAB or CR",
+        "texts = sequences of lines from a 16-line alphabet (dash lines, armor boundary strings, trailing blanks, inner CR, UTF-8, lines ending in FF / NBSP) up to 4 (thorough 5) lines and from a 4-shape sub-alphabet up to 8 (10) lines x line ending {LF,CRLF,mixed} x final {none,newline,lone CR} x {sign v4, sign v6, new SHA-512, new_many 2 signers}: sign -> signed_text = RFC form -> armored -> independent reader sees the text -> from_string / from_armor / Any::from_string -> same text, verifies; non-trivial = text contains '-', blank, TAB or CR",
         cases.into_par_iter(),
         run_text,
     );
